@@ -296,10 +296,15 @@ func c15Rich() *Scenario {
 	pre(one("create(B->R1,6000nund@1)", model.Msg{Kind: model.StrCreate, From: "B", To: "R1", Den: mc.Nund, Amt: "6000", Rate: 1}, nil))
 	pre(one("create(B->L32:M,600nund@1)", model.Msg{Kind: model.StrCreate, From: "B", To: "L32:M", Den: mc.Nund, Amt: "600", Rate: 1}, nil))
 	s.Tracked = append(s.Tracked, "L32:M")
-	gs := Action{Name: "gov(stream:fee=0.5)", Gov: &GovSpec{Kind: model.StrParams, Params: "0.500000000000000000"}}
-	gw := Action{Name: "gov(wrk:default=3,max=6)", Gov: &GovSpec{Kind: model.WrkParams, Params: model.AnchorParams{FeeReg: 24, FeeRec: 2, FeePur: 3, Denom: mc.Nund, Default: 3, Max: 6}}}
+	// parameters at their boundaries: a validator fee of exactly zero; maxima lowered below limits that
+	// registrations already hold (chain 1: limit 3 > max 2, beacon 1: limit 4 > max 3)
+	pre(purAct("bpur(W1,#1,2)", model.BcnPur, "W1", 1, 2, ""))
+	gs := Action{Name: "gov(stream:fee=0)", Gov: &GovSpec{Kind: model.StrParams, Params: "0.000000000000000000"}}
+	gw := Action{Name: "gov(wrk:default=1,max=2)", Gov: &GovSpec{Kind: model.WrkParams, Params: model.AnchorParams{FeeReg: 24, FeeRec: 2, FeePur: 3, Denom: mc.Nund, Default: 1, Max: 2}}}
+	gb := Action{Name: "gov(bcn:default=1,max=3)", Gov: &GovSpec{Kind: model.BcnParams, Params: model.AnchorParams{FeeReg: 31, FeeRec: 5, FeePur: 7, Denom: mc.Nund, Default: 1, Max: 3}}}
 	pre(gs)
 	pre(gw)
+	pre(gb)
 	pre(Action{Name: "wait(1m40s)", Dt: 100 * time.Second})
 	pre(one("claim(R1<-A)", model.Msg{Kind: model.StrClaim, From: "R1", To: "A"}, nil))
 	pre(one("claim(R1<-B)", model.Msg{Kind: model.StrClaim, From: "R1", To: "B"}, nil))
@@ -319,7 +324,7 @@ func c15Rich() *Scenario {
 		decide("S1", 3, 2), decide("S1", 3, 3),
 		one("whitelist(S1,-P1)", model.Msg{Kind: model.EntWhitelist, From: "S1", To: "P1", N: 2}, nil),
 		one("wrec(P1,#3,1,fee2)", model.Msg{Kind: model.WrkRec, From: "P1", ID: 3, H: 1, S: []string{"0xp1", "", "", "", ""}}, fee(2)),
-		purAct("bpur(W1,#1,2)", model.BcnPur, "W1", 1, 2, ""),
+		purAct("bpur(W1,#1,1)", model.BcnPur, "W1", 1, 1, ""),
 		regAct(model.BcnReg, "O", []string{"beacon-o", "Beacon o"}, 9),
 		one("send(A->O,5nund)", model.Msg{Kind: model.BankSend, From: "A", To: "O", Den: mc.Nund, Amt: "5"}, nil),
 	)
